@@ -26,6 +26,7 @@ RULE = ("stream 'token': phone-number strings (digits of length 1..20, leading z
         "number, leading zeros) sent with preview=True to a transport double, the server key replaced by one whose private half the check holds: the blob "
         "opens to the request's parameters in order under standard decoding, cc / in are the number's parts, token = independent HMAC-SHA1 of the "
         "national number. distinct = distinct input.")
+RULE += (" The order in which parameters were added is recorded independently of the request's own list (which a send must not rearrange).")
 ASSUMPTIONS = ["SHA-1 (hashlib) is the hash function; X25519 agreement is symmetric; AES-GCM decrypt inverts encrypt (cryptography / python-axolotl curve)",
                "lone surrogates are rejected by urllib.parse.quote and are outside the model", "freshness of the ephemeral key is a runtime property: exercised, not proved"]
 
@@ -314,9 +315,25 @@ def _run_request(chk, case):
     real_init = chk.WAR.__init__
 
     def init(self, *a, **kw):
+        self._verif_added = []
         real_init(self, *a, **kw)
         reqs.append(self)
     chk.WAR.__init__ = init
+    # the order in which the parameters were added, kept independently of the request's own list (which a send must not reorder either)
+    real_add, real_remove, real_clear = chk.WAR.addParam, chk.WAR.removeParam, chk.WAR.clearParams
+
+    def add(self, name, value):
+        self._verif_added.append((name, value))
+        return real_add(self, name, value)
+
+    def remove(self, name):
+        self._verif_added[:] = [kv for kv in self._verif_added if kv[0] != name]
+        return real_remove(self, name)
+
+    def clear(self):
+        del self._verif_added[:]
+        return real_clear(self)
+    chk.WAR.addParam, chk.WAR.removeParam, chk.WAR.clearParams = add, remove, clear
     try:
         if kind in ("code", "code-noid"):
             WACodeRequest("sms", prof).send(preview=True)
@@ -335,6 +352,7 @@ def _run_request(chk, case):
         return [oracle("C20:request-raises", "cc %s national %s, %s request raises %s: %s" % (cc, nat, kind, type(e).__name__, e))]
     finally:
         chk.WAR.sendRequest, chk.WAR.ENC_PUBKEY, chk.WAR.__init__ = real_send, real_key, real_init
+        chk.WAR.addParam, chk.WAR.removeParam, chk.WAR.clearParams = real_add, real_remove, real_clear
     chk.hit("request:%s:sent=%d" % (kind, len(sent)))
     twice = kind in ("exists", "reg")
     if len(sent) != len(reqs) * (2 if twice else 1) or not sent:
@@ -362,7 +380,10 @@ def _run_request(chk, case):
             fails.append(oracle("C20:blob-does-not-open", "%s: blob does not decrypt with the private key matching the server key used: %s" % (what, type(e).__name__)))
             continue
         got = [(k, urllib.parse.unquote_to_bytes(v)) for k, v in (item.split(b"=", 1) for item in plain.split(b"&"))]
-        want = [(k.encode(), _as_bytes(v)) for k, v in req.params]
+        want = [(k.encode(), _as_bytes(v)) for k, v in req._verif_added]
+        if [(k.encode(), _as_bytes(v)) for k, v in req.params] != want:
+            fails.append(oracle("C20:request-parameters-rearranged", "%s: after the send the request's own parameter list is %s; they were added as %s"
+                                % (what, [k for k, _v in req.params][:12], [k for k, _v in req._verif_added][:12])))
         if got != want:
             i = next((j for j in range(min(len(got), len(want))) if got[j] != want[j]), min(len(got), len(want)))
             fails.append(oracle("C20:blob-content", "%s: the blob's parameter #%d is %r, the request's is %r (%d / %d parameters)"
